@@ -237,6 +237,50 @@ pub fn reuse_line(a: &[u8], b: &[u8], ops: &[crate::svgops::Op]) -> String {
     }
 }
 
+/// `refile <hex A> <hex B> <svg ops> => f:<digest of the file after rendering A and then B to the SAME path>:<digest of B's
+/// in-memory rendering> g:<same, B written by a fresh renderer>` — A and B are near-identical payloads of one size, so the
+/// two documents have the same length and differ only here and there (often only near the end)
+pub fn refile_line(a: &[u8], b: &[u8], ops: &[crate::svgops::Op]) -> String {
+    use fast_qr::convert::svg::SvgBuilder;
+    let head = format!("refile {} {} {} => ", hex(a), hex(b), crate::svgops::toks(ops));
+    let o = Opts::default();
+    let (qa, qb) = match (build(a, o), build(b, o)) {
+        (Outcome::Ok(x), Outcome::Ok(y)) => (*x, *y),
+        _ => return format!("{}nobuild", head),
+    };
+    static SEQ: std::sync::atomic::AtomicUsize = std::sync::atomic::AtomicUsize::new(0);
+    let seq = SEQ.fetch_add(1, std::sync::atomic::Ordering::SeqCst);
+    let dir = format!("/verif/work/refile-{}-{}", std::process::id(), seq);
+    let _ = std::fs::create_dir_all(&dir);
+    let path = format!("{}/out.svg", dir);
+    let ops2 = ops.to_vec();
+    let p2 = path.clone();
+    let r = std::panic::catch_unwind(move || {
+        let mut sb = SvgBuilder::default();
+        crate::svgops::apply(&mut sb, &ops2);
+        let r1 = sb.to_file(&qa, &p2).is_ok();
+        let r2 = sb.to_file(&qb, &p2).is_ok();
+        let f1 = std::fs::read(&p2).unwrap_or_default();
+        let want = sb.to_str(&qb);
+        // the same with a fresh renderer for the second write, and a changed colour (same length, other text)
+        let mut fresh = SvgBuilder::default();
+        crate::svgops::apply(&mut fresh, &ops2);
+        crate::svgops::apply(&mut fresh, &[crate::svgops::Op::BackgroundColor(crate::svgops::ColorArg::Rgb([0x1a, 0x5f, 0xb4]))]);
+        let r3 = fresh.to_file(&qb, &p2).is_ok();
+        let f2 = std::fs::read(&p2).unwrap_or_default();
+        let want2 = fresh.to_str(&qb);
+        if !(r1 && r2 && r3) {
+            return "trap to_file-returned-Err".to_string();
+        }
+        format!("f:{:016x}:{:016x} g:{:016x}:{:016x}", fnv(&String::from_utf8_lossy(&f1)), fnv(&want), fnv(&String::from_utf8_lossy(&f2)), fnv(&want2))
+    });
+    let _ = std::fs::remove_dir_all(&dir);
+    match r {
+        Ok(s) => format!("{}{}", head, s),
+        Err(e) => format!("{}trap {}", head, panic_msg(e)),
+    }
+}
+
 /// `afterx <hex> <e|-> => b:<digest of the build made after two CAUGHT panicking builds on the same thread>:<digest of the build alone>`
 pub fn afterx_line(input: &[u8], ecl: Option<usize>) -> String {
     let head = format!("afterx {} {} => ", hex(input), opt(ecl));
@@ -301,6 +345,19 @@ pub fn gen(out: &mut crate::gen::Out, rng: &mut Rng, thorough: bool) {
             let ops = crate::svgops::with_noise(rng, &ops);
             out.job(move || crate::gen::svg_line(&inp, o, &ops));
         }
+    }
+    // the same path written twice: a near-identical second rendering of the same length must replace the first
+    for _ in 0..(if thorough { 150 } else { 16 }) {
+        let mut a = crate::gen::structured(rng);
+        a.truncate(120);
+        while a.len() < 20 {
+            a.extend_from_slice(b"-0012");
+        }
+        let mut b = a.clone();
+        let p = b.len() - 1 - rng.below(3);
+        b[p] = if b[p] == b'7' { b'3' } else { b'7' };
+        let ops = vec![crate::svgops::Op::Margin(rng.below(6)), crate::svgops::Op::ModuleColor(crate::svgops::rand_color(rng))];
+        out.job(move || refile_line(&a, &b, &ops));
     }
     // batches of near-identical payloads built one after the other
     for _ in 0..(if thorough { 600 } else { 60 }) {
